@@ -1655,7 +1655,6 @@ func sizeOf(t types.Type) int {
 	return 8
 }
 
-
 // subSliceBase: for an integer value that indexes, or is compared with the length of, exactly one derived slice
 // `data[lo:…]` (and never the input itself), that slice. Propagated through phis and ±constant.
 func (e *Engine) subSliceBase(fn *ssa.Function, v ssa.Value) ssa.Value {
@@ -1792,7 +1791,6 @@ func computeSubBase(fn *ssa.Function) map[ssa.Value]ssa.Value {
 	return out
 }
 
-
 // notePos records that the index / slice expression at pos was judged by this engine (whatever the verdict).
 func (e *Engine) notePos(pos token.Pos) {
 	if e.Checked == nil {
@@ -1800,7 +1798,6 @@ func (e *Engine) notePos(pos token.Pos) {
 	}
 	e.Checked[pos] = true
 }
-
 
 // isCounter: v belongs to a web of integers that is only ever compared with constants (see computeSignOnly).
 func (e *Engine) isCounter(fn *ssa.Function, v ssa.Value) bool {
